@@ -467,7 +467,8 @@ impl<T: Storage> RaftLog<T> {
     fn applied_index_upper_bound(&self) -> u64 {
         std::cmp::min(
             self.committed,
-            self.persisted + self.max_apply_unpersisted_log_limit,
+            self.persisted
+                .saturating_add(self.max_apply_unpersisted_log_limit),
         )
     }
 
